@@ -6,7 +6,7 @@ PROP = {
     "n": {"quick": 2400, "thorough": 60000},
     "theorems": ["mips_plain_forms_correct", "mips_single_block_correct", "mips_control_correct", "mips_branch_block_correct",
                  "mips_fields_okb_ok", "mips_branch_okb_ok",
-                 "mips_jr_target_read_after_slot_refuted", "mips_unaligned_lw_refuted", "mips_div_by_zero_refuted"],
+                 "mips_jr_target_read_after_slot_refuted", "mips_unaligned_lw_refuted"],
     "tie_name": "mirror_block (decoded words) = IL dumped by translator::mips::{Mips,Mipsel}::translate_block",
     "rule": "case i: i mod 4 = 3 is a PowerPC case, the others MIPS. MIPS case = form (k mod #forms) x variant (k div #forms): the variant picks "
             "endianness, lift address {0x401000, 0x90002000}, register pattern (distinct, $zero in each field, rd=rs, rd=rt, rs=rt, all equal, $ra, "
